@@ -31,6 +31,8 @@ from ml_pipeline_engine.types import NodeResultT
 from ml_pipeline_engine.types import PipelineContextLike
 from ml_pipeline_engine.types import Recurrent
 
+_RESULT_IS_NOT_READY = object()
+
 _EventDictT = t.Dict[t.Any, asyncio.Event]
 _ConditionT = t.Dict[t.Any, asyncio.Condition]
 
@@ -321,6 +323,11 @@ class DAGRunConcurrentManager(DAGRunManagerLike):
             logger.debug('Node %s has been executed. Stop new execution', node_id)
 
             await self._lock_manager.wait_for_event(node_id)
+
+            if not self._node_storage.exists_node_result(node_id):
+                # The previous result of the node is hidden: a recurrent subgraph executes the node once again
+                # right now. That execution publishes the new result and wakes the consumers up.
+                return _RESULT_IS_NOT_READY
 
             result = self._node_storage.get_node_result(node_id)
 
@@ -722,6 +729,7 @@ class DAGRunConcurrentManager(DAGRunManagerLike):
         """
 
         to_unlock_descendants = True
+        result = None
 
         try:
             result = await self._execute_node(
@@ -729,6 +737,9 @@ class DAGRunConcurrentManager(DAGRunManagerLike):
                 node_id=node_id,
                 dag=dag,
             )
+
+            if result is _RESULT_IS_NOT_READY:
+                return
 
             is_recurrent = isinstance(result, Recurrent)
 
@@ -774,6 +785,9 @@ class DAGRunConcurrentManager(DAGRunManagerLike):
                     )
 
         finally:
+            if result is _RESULT_IS_NOT_READY:
+                return  # noqa: B012
+
             if not to_unlock_descendants:
                 logger.debug('Skip unlocking the descendants of the node, node_id=%s', node_id)
                 self.__unlock_execution_lock(node_id)
@@ -792,12 +806,11 @@ class DAGRunConcurrentManager(DAGRunManagerLike):
 
             if node_id == dag.dest:
                 logger.debug('The node %s is an output node', node_id)
-                await self.__unlock_itself(node_id)
 
-            elif self.dag.graph.nodes[node_id].get(NodeField.is_oneof_child):
-                # The candidate of a one-of has been executed as an ordinary node of another sub-pipeline,
-                # and the one-of may be waiting for this very node.
-                await self.__unlock_itself(node_id)
+            # Besides the sub-pipeline that ends with the node, other ones may be waiting for this very node: a one-of
+            # whose candidate has been executed as an ordinary node of another sub-pipeline, or a sub-pipeline whose
+            # concurrent request for the node has been put off because the node was being executed again.
+            await self.__unlock_itself(node_id)
 
     async def __unlock_itself(self, node_id: NodeId) -> None:
         """
